@@ -1,0 +1,39 @@
+//go:build verif
+
+package iavl
+
+import (
+	"sync/atomic"
+
+	"github.com/cosmos/iavl/internal/encoding"
+)
+
+// This file is only compiled with the "verif" build tag. It gives the verification harness
+// (a) named yield points at protocol boundaries of the commit and pruning paths and (b) access
+// to the internal decoders. With the tag off verifPoint is an empty function (hooks_noverif.go).
+
+var verifHook atomic.Pointer[func(name string)]
+
+// SetVerifHook installs (or, with nil, removes) the function called at every verifPoint.
+func SetVerifHook(f func(name string)) {
+	if f == nil {
+		verifHook.Store(nil)
+		return
+	}
+	verifHook.Store(&f)
+}
+
+func verifPoint(name string) {
+	if f := verifHook.Load(); f != nil {
+		(*f)(name)
+	}
+}
+
+// VerifDecodeBytes re-exports internal/encoding.DecodeBytes.
+func VerifDecodeBytes(bz []byte) ([]byte, int, error) { return encoding.DecodeBytes(bz) }
+
+// VerifDecodeUvarint re-exports internal/encoding.DecodeUvarint.
+func VerifDecodeUvarint(bz []byte) (uint64, int, error) { return encoding.DecodeUvarint(bz) }
+
+// VerifDecodeVarint re-exports internal/encoding.DecodeVarint.
+func VerifDecodeVarint(bz []byte) (int64, int, error) { return encoding.DecodeVarint(bz) }
